@@ -8,6 +8,11 @@
      that).
    Executable definitions only.
 
+   Style rules of the model carry declarations only (no nested rules), which is
+   exactly the class of rules the merge applies to after fix 5a4c9dc (the
+   containsNestedRules conjunct of the merge condition): for model rules that
+   conjunct is always true, so the merge condition of [mr] is the complete one.
+
    Rule trees: a selector is its identity plus the two syntactic facts esbuild
    computes about it (isSafeSelectors, containsDeadSelectors).  A declaration is
    Cascade.decl (property, value identity, !important, syntax feature). *)
